@@ -3,9 +3,9 @@ from __future__ import annotations
 from rfbgen import *  # noqa
 
 ID = "C13"
-PROOF_MODULES = ["VncProofs.C13"]
+PROOF_MODULES = ["VncProofs.C13", "VncProofs.C13Cli"]
 THEOREMS = ["Vnc.C13_table", "Vnc.C13_mode_size", "Vnc.C13_modes", "Vnc.C13_accept_or_set", "Vnc.C13_in_force", "Vnc.C13_pf_stable",
-            "Vnc.C13_encodings", "Vnc.C13_only_supported", "Vnc.C13_numbers", "Vnc.C13_defaults", "Vnc.C13_setencodings_wire"]
+            "Vnc.C13_encodings", "Vnc.C13_only_supported", "Vnc.C13_numbers", "Vnc.C13_defaults", "Vnc.C13_setencodings_wire", "Vnc.C13_cli_encodings", "Vnc.C12_cli_nocursor"]
 TRUSTED = [
     "Lean 4.33 kernel; standard axioms only",
     "PF2IM, RGB32, BGR16, SUPPORTED_ENCODINGS, the encoding numbers and the factory defaults are re-extracted from the source on every run and the theorems re-checked against them",
@@ -89,6 +89,10 @@ def cli_options_leg(ctx):
                     cnt = struct.unpack("!H", bytes.fromhex(ws[i])[2:4])[0]
                     got = [struct.unpack("!i", bytes.fromhex(x))[0] for x in ws[i + 1:i + 1 + cnt]]
                 want = [0] + ([-239] if (nocursor or localcursor) else []) + ([] if noresize else [-223]) + [-224, -258]
+                mo = ctx.drive(["cli-opts %d %d %d" % (localcursor, nocursor, noresize)])
+                if mo is not None and got is not None and mo[0] != "ok " + ",".join(str(e) for e in got):
+                    ctx.disagree("model-vs-vncdo-options", {"input": {"nocursor": nocursor, "localcursor": localcursor, "disable_desktop_resizing": noresize},
+                                                            "impl": got, "model": mo[0]})
                 ctx.count("cli_option_combinations")
                 ctx.case(None, key=("cli", nocursor, localcursor, noresize))
                 if got != want:
